@@ -638,13 +638,20 @@ def resolveDocs : List Node → R (List Tree)
     | .error e => .error e
     | .ok (t, _) => (resolveDocs ns).map (t :: ·)
 
-/-- Loader on characters. -/
-def loadChars (s : Str) : R (List Tree) :=
-  let s := match s with | '﻿' :: r => r | _ => s   -- byte order mark
-  let ls := linesOf (normBreaks s)
+/-- Byte order mark at the start of the stream. -/
+def stripBom (s : Str) : Str :=
+  match s with
+  | '﻿' :: r => r
+  | _ => s
+
+/-- Loader on lines. -/
+def loadLines (ls : List Line) : R (List Tree) :=
   match parseDocs (ls.length + 2) ls with
   | .error e => .error e
   | .ok ns => resolveDocs ns
+
+/-- Loader on characters. -/
+def loadChars (s : Str) : R (List Tree) := loadLines (linesOf (normBreaks (stripBom s)))
 
 /-- The reference loader. -/
 def loadRef (b : ByteArray) : R (List Tree) :=
